@@ -145,6 +145,24 @@ def handleA64Long (args obs : List String) : Verdict :=
     | _, _ => bad "args"
   | _, _ => bad "arity"
 
+/-- `macflush <jit> <func> <remap> <n> | -` : C17 for the macOS memory path, judged on the source as translated
+    (there is no macOS to run): trampoline contents, entry patch and restoration are each covered by an
+    instruction-cache invalidation requested after the write -/
+def handleMacFlush (args : List String) : Verdict :=
+  match args with
+  | [jS, fS, rS, nS] =>
+    match parseHex jS, parseHex fS, parseHex rS, nS.toNat? with
+    | some jit, some func, some remap, some n =>
+      let bytes := (List.range n).map (fun i => (i * 37 + 11) % 256)
+      let t := Gen.macTrampFlushed bytes jit
+      let e := Gen.macEntryFlushed func (bytes.take 12) remap
+      let d := Gen.macRestoreFlushed func (bytes.take 12) jit remap
+      { agree := true, propOk := t && e && d, branch := "macflush",
+        detail := (if t then "" else " key=c17.macos-trampoline-flush") ++ (if e then "" else " key=c17.macos-entry-flush") ++
+                  (if d then "" else " key=c17.macos-restore-flush") }
+    | _, _, _, _ => bad "args"
+  | _ => bad "arity"
+
 /-- `a32patch <src> <target> | ok addr= bytes= frame= saved= psize= restored=` -/
 def handleA32Patch (args obs : List String) : Verdict :=
   match args with
